@@ -187,8 +187,8 @@ Theorem C05G_lingering_names_refuted : exists s1 s2,
 Proof. exact has_link_links_only_refuted. Qed.
 Print Assumptions C05G_lingering_names_refuted.
 
-(* F05 shape: with a domain matching function (b5) fails.  After AddLink(alice, admin, *),
-   AddLink(alice, admin, d1), DeleteLink(alice, admin, *) the listing still holds (alice, admin, d1)
+(* F05 shape: with a domain matching function (b5) fails.  After AddLink(alice, admin, STAR),
+   AddLink(alice, admin, d1), DeleteLink(alice, admin, STAR) (STAR = the domain pattern "*") the listing still holds (alice, admin, d1)
    but the structure has no link in d1: DeleteLink ranges over every manager matching the pattern. *)
 Theorem C05G_domain_pattern_delete_refuted :
   adrun 10 [] f05_ops = [("alice", "admin", "d1")] /\
